@@ -295,6 +295,20 @@ def check_twice(out: Outcome, sub) -> None:
         out.bad(f"twice:wrong-displacement:{lead}", sub, f"{rom}: emitted {flat.hex()}, expected {want.hex()}\n{src}")
 
 
+def check_ram_small(out: Outcome, sub) -> None:
+    """A branch that runs from RAM is rejected whatever its target is written as -- also a small bare number (which is an address
+    like any other operand, never a ready-made displacement)."""
+    m, rom, v, lead = sub["m"], sub["rom"], sub["v"], sub["lead"]
+    model = busmodel.builtin(rom)
+    r = model.rom_ranges()[0]
+    S = ((r.first + 1) << 16) | (r.win_lo + 0x100)
+    src = (f"*=0x{S:06x}\n@=0x7e2000\n" if lead == "reloc" else f"*=0x{S:06x}\n.db 0xea\n*=0x7e2000\n") + f"nop\n{m} {v}\n"
+    res = driver.assemble_mem(src, rom=rom)
+    if res.accepted:
+        flat = b"".join(dd for _, dd in res["blocks"])
+        out.bad(f"accepted-branch-runs-from-RAM:small-number:{lead}", sub, f"{rom}: `{m} {v}` in code that runs at 0x7e2001 must be rejected but assembled: {flat.hex()}\n{src}")
+
+
 def enum_units(tier, seed):
     units = []
     for rom in ("low", "high"):
@@ -354,6 +368,11 @@ def run_case(case) -> Outcome:
             ev += 1
             nt += 1
         for lead in ("org", "reloc"):
+            for v in ("0", "2", "0x10", "0x7f", "-3", "0 - 2", "2 + 3"):
+                check_ram_small(out, {"t": "ramsmall", "m": case["m"], "rom": case["rom"], "v": v, "lead": lead})
+                ev += 1
+                nt += 1
+        for lead in ("org", "reloc"):
             for n1, n2 in ((4, 2), (0, 0), (1, 100)):
                 check_twice(out, {"t": "twice", "m": case["m"], "rom": case["rom"], "lead": lead, "n1": n1, "n2": n2})
                 ev += 1
@@ -390,6 +409,9 @@ def run_case(case) -> Outcome:
         return out
     if case.get("t") == "twice":
         check_twice(out, case)
+        return out
+    if case.get("t") == "ramsmall":
+        check_ram_small(out, case)
         return out
     if not check_one(out, case):
         return Outcome(skip="combination outside the statement")
